@@ -107,6 +107,11 @@ structure Env where
   /-- the daemon starts answering after `dDelay` ms and pauses `dGap` ms in the middle of the body -/
   dDelay : Nat := 0
   dGap : Nat := 0
+  /-- repo/stat (round 8b): the RepoStat calls (numbered in the order they reach the peers) that answer an error -/
+  statBad : List Nat := []
+  /-- repo/gc (round 8b): the scripted collection reports errors (bit 0: a peer failed as a whole, bit 1: a key error);
+      the model's observables do not depend on it as long as `stream-errors=true` (errors travel in the body) -/
+  gcErr : Nat := 0
 deriving Repr
 
 structure Input where
@@ -459,14 +464,23 @@ def addH (typedUnpin : Bool) (e : Env) (q : List (Bytes × Bytes)) (obs : AddObs
 
 def dec (n : Nat) : Bytes := lit (toString n)
 
+/-- the k-th RepoStat call succeeds -/
+def statOk (e : Env) (k : Nat) : Bool := !(e.fail .repoStat) && !(e.statBad.contains k)
+
+/-- what each peer reports to the loop after MultiCall (`none` = its call failed); the fake peers report 1000 / 100000 -/
+def statAnswers (e : Env) : List (Option (Nat × Nat)) :=
+  (List.range e.npeers).map (fun k => if statOk e k then some (1000, 100000) else none)
+
+/-- number of peers whose call succeeded -/
+def statOkCount (e : Env) : Nat := ((List.range e.npeers).filter (statOk e)).length
+
+/-- repoStatHandler: Consensus.Peers, RepoStat on every peer, the totals over the peers that answered
+    (a failed peer is skipped, the answer is still 200) -/
 def repoStatH (e : Env) : HOut :=
   if e.fail .peers then { status := 500, rpcs := [{ name := .peers, ok := false }] }
-  else if e.fail .repoStat then
-    { status := 200, items := [dec 0, dec 0],
-      rpcs := { name := .peers } :: List.replicate e.npeers { name := .repoStat, ok := false } }
   else
-    { status := 200, items := [dec (e.npeers * 1000), dec (e.npeers * 100000)],
-      rpcs := { name := .peers } :: List.replicate e.npeers { name := .repoStat } }
+    { status := 200, items := [dec (statOkCount e * 1000), dec (statOkCount e * 100000)],
+      rpcs := { name := .peers } :: (List.range e.npeers).map (fun k => { name := .repoStat, ok := statOk e k }) }
 
 def repoGCH (e : Env) : HOut :=
   if e.fail .repoGC then { status := 500, rpcs := [{ name := .repoGC, ok := false }] }
